@@ -40,11 +40,13 @@ def load_schema():
 # ------------------------------------------------------------------ trees: (kw, arg|None, [subs])
 
 def render(forest):
-    out = []
+    """YANG text, one statement per line, and the line:col of every statement in pre-order"""
+    out, pos = [], []
 
     def go(s, ind):
         kw, arg, subs = s
         head = "  " * ind + kw + ("" if arg is None else ' "%s"' % arg)
+        pos.append("%d:%d" % (len(out) + 1, 2 * ind + 1))
         if subs:
             out.append(head + " {")
             for c in subs:
@@ -54,16 +56,18 @@ def render(forest):
             out.append(head + ";")
     for s in forest:
         go(s, 0)
-    return "\n".join(out) + "\n"
+    return "\n".join(out) + "\n", pos
 
 
-def encode(forest):
+def encode(forest, pos):
     toks = [str(len(forest))]
+    it = iter(pos)
 
     def go(s):
         kw, arg, subs = s
         toks.append(lib.hexs(kw.encode()))
         toks.append("N" if arg is None else ("E" if arg == "" else arg.encode().hex()))
+        toks.append(next(it))
         toks.append(str(len(subs)))
         for c in subs:
             go(c)
@@ -73,7 +77,8 @@ def encode(forest):
 
 
 def case_line(forest):
-    return "ast %s %s" % (lib.hexs(render(forest).encode()), " ".join(encode(forest)))
+    text, pos = render(forest)
+    return "ast %s %s" % (lib.hexs(text.encode()), " ".join(encode(forest, pos)))
 
 
 def size(forest):
@@ -158,7 +163,7 @@ ODD = ["bogus", "x:ext", "x:ext2", "a:b:c", ":", "a:", ":b", "::", "meta", "modu
 
 def sweep(tb):
     cases = []
-    hist = dict(pair_once=0, pair_twice=0, required_omitted=0, odd_keyword=0, toplevel=0)
+    hist = dict(pair_once=0, pair_twice=0, required_omitted=0, odd_keyword=0, toplevel=0, two_errors=0)
     paths = tb.paths()
     for (ty, kw), chain in sorted(paths.items()):
         req = tb.required_keys(ty, kw)
@@ -184,6 +189,29 @@ def sweep(tb):
             cases.append(case_line(ctx(base + [(k, "o", [])])))
             cases.append(case_line(ctx([(k, None, [])] + base)))
             hist["odd_keyword"] += 2
+        # two things wrong at once: which error comes first (depth-first, source order, then required checks)
+        errs = [[("bogus", "e", [])]]
+        for f in tb.children(ty):
+            t2 = tb.struct_for(f["key"])
+            if t2 and tb.required_keys(t2, f["key"]) and f["key"] not in req:
+                errs.append([(f["key"], "lacks", [])])
+                break
+        for f in tb.children(ty):
+            if f["kind"] == "FSingle" and f["key"] not in req and not f["reqkinds"]:
+                errs.append([tb.minimal(f["key"], "d1"), tb.minimal(f["key"], "d2")])
+                break
+        if tb.struct_for("x:e") is None and not any(f["kind"] == "FExt" for f in tb.structs[ty]):
+            errs.append([("x:e", "noext", [])])
+        for a in errs:
+            for b in errs:
+                if a is not b:
+                    cases.append(case_line(ctx(base + a + b)))
+                    hist["two_errors"] += 1
+            for k in req:
+                less = [tb.minimal(x, "r") for x in req if x != k]
+                cases.append(case_line(ctx(less + a)))
+                cases.append(case_line(ctx(a + less)))
+                hist["two_errors"] += 2
         # two extensions and a field interleaved: order inside the extension list
         kids = tb.children(ty)
         mid = [tb.minimal(kids[0]["key"], "k")] if kids and kids[0]["key"] not in req else []
@@ -260,7 +288,12 @@ def randoms(tb, rnd, n):
 
 
 def canon(o):
-    return "PANIC" if o.startswith("PANIC") else o
+    """errors are compared by position only: "err L:C" / "err nopos" (the model adds the kind)"""
+    if o.startswith("PANIC"):
+        return "PANIC"
+    if o.startswith("err"):
+        return " ".join(o.split()[:2])
+    return o
 
 
 def gen(tier, seed):
@@ -277,16 +310,24 @@ def run(res, tier, seed, proof):
     tb, cases, hist = gen(tier, seed)
     go, ml, mism = lib.diff_cases(res, cases, canon=canon)
     ok = sum(1 for g in go if g.startswith("ok"))
-    err = sum(1 for g in go if g == "err")
+    err = sum(1 for g in go if g.startswith("err"))
+    kinds = {}
+    deep = {}
+    for c, m in zip(cases, ml):
+        t = m.split()
+        if len(t) == 3 and t[0] == "err":
+            kinds[t[2]] = kinds.get(t[2], 0) + 1
+            if t[1] != "nopos" and int(t[1].split(":")[1]) >= 5:      # column 5 = depth 2
+                deep[t[2]] = deep.get(t[2], 0) + 1
     other = len(go) - ok - err
     # anything that is neither a dump nor a rejection on the implementation side is a crash of the builder
     for c, g in zip(cases, go):
-        if not (g.startswith("ok") or g == "err"):
+        if not (g.startswith("ok") or g.startswith("err ")):
             res.violation("implementation neither built nor rejected: %s -> %s" % (c[:200], g[:200]),
                           dict(kind="correspondence", case=c, impl=g, model="(see replay)"))
             break
     nontrivial = len({c for c, g in zip(cases, go) if g.startswith("ok ") and g.count(":") >= 9} |
-                     {c for c, g in zip(cases, go) if g == "err"})
+                     {c for c, g in zip(cases, go) if g.startswith("err")})
     mid = len(cases) // 2
     cov = dict(
         evaluations=len(cases), distinct_nontrivial=nontrivial,
@@ -294,9 +335,12 @@ def run(res, tier, seed, proof):
              "field at multiplicity 1 and 2 in two positions; every required field omitted; pseudo keywords "
              "Name/Statement/Parent/Ext, unknown, prefixed and multi-colon keywords, with and without argument; "
              "every keyword at top level alone, before and after a module) plus random trees over the table's "
-             "keywords; non-trivial = rejected, or built with at least three nodes",
+             "keywords; non-trivial = rejected, or built with at least three nodes.  On rejection the line:col "
+             "prefix of the Go error (or its absence) is compared with the position of the statement the model "
+             "reports (C16, third sentence, for builder errors)",
         exhaustive=False, mismatches=mism,
-        distribution=dict(hist, built=ok, rejected=err, other=other,
+        distribution=dict(hist, built=ok, rejected=err, other=other, error_kinds=kinds,
+                          error_kinds_reported_at_depth_2_or_more=deep,
                           structs=len(tb.structs), keywords=len(tb.names)),
         samples=[cases[7][:400], cases[mid][:400], cases[-5][:400]],
         sample_observations=[go[7][:400], go[mid][:400], go[-5][:400]],
